@@ -18,7 +18,9 @@ from tpmstream.common.error import (
 from tpmstream.common.event import MarshalEvent, WarningEvent
 from tpmstream.io.binary import Binary
 
-from .common import DOCUMENTED, decode, get_type
+from engine.native import exc_tag
+
+from .common import DOCUMENTED, decode, decode_full, get_type
 
 KIND = {
     InputStreamBytesDepletedError: "Depleted",
@@ -74,12 +76,15 @@ def _cfg(cfg):
 # ------------------------------------------------------------------ C01/C03/C04/C05: strict vs RefDec
 def strict_ref(cfg, b):
     T, cc, enc = _cfg(cfg)
-    events, err, obj = decode(T, b, strict=True, command_code=cc, parameter_encryption=enc)
+    r = decode_full(T, b, True, cc, enc)
+    events, err = r.events, r.err
     ref = RefDec(pinned_layout(), b)
     rev, out = ref.run(cfg["type"], cc=cc, enc=enc)
     kind = out[0]
     if kind == "Undefined":
         assume(False)
+    if r.crash is not None:
+        return [("crash:%s[ref=%s]" % (exc_tag(r.crash), kind), False)]
     note("outcome:" + kind)
     want = cfg.get("only")
     if want is not None:
@@ -144,7 +149,11 @@ def strict_ref(cfg, b):
 def roundtrip(cfg, b):
     T, cc, enc = _cfg(cfg)
     strict = not cfg.get("warn")
-    events, err, obj = decode(T, b, strict=strict, command_code=cc, parameter_encryption=enc)
+    r = decode_full(T, b, strict, cc, enc)
+    events, err = r.events, r.err
+    if r.crash is not None:
+        note("crash")  # C06 / C08's business
+        return []
     if err is not None:
         note("rejected:" + kind_of(err))
         return []
@@ -208,7 +217,11 @@ def documented(cfg, b):
 # ------------------------------------------------------------------ C13: byte accounting of constraint errors
 def accounting(cfg, b):
     T, cc, enc = _cfg(cfg)
-    events, err, obj = decode(T, b, strict=True, command_code=cc, parameter_encryption=enc)
+    r = decode_full(T, b, True, cc, enc)
+    events, err = r.events, r.err
+    if r.crash is not None:
+        note("crash")  # C06's business
+        return []
     if not isinstance(err, ConstraintViolatedError):
         note("no-constraint-error:" + kind_of(err))
         return []
@@ -224,7 +237,11 @@ def accounting(cfg, b):
     if kind == "Value":
         consumed = err.constraint.tpm_type._int_size
     elif kind == "Exceeded":
+        # the rest of the overrun region; nothing if the region was already overrun when it was
+        # declared (e.g. commandSize < 6: the header itself lies beyond the declared end)
         consumed = err.constraint.size_max - err.constraint.size_already
+        if consumed < 0:
+            consumed = 0
     else:
         consumed = 0
     n = len(b)
@@ -232,3 +249,119 @@ def accounting(cfg, b):
     checks.append(("emitted-is-prefix[%s]" % kind, len(emitted) <= n and all([emitted[i] == b[i] for i in range(min(len(emitted), n))])))
     checks.append(("remaining-is-suffix[%s]" % kind, len(rem) <= n and all([rem[i] == b[n - len(rem) + i] for i in range(min(len(rem), n))])))
     return checks
+
+
+# ------------------------------------------------------------------ C07: warn mode vs strict mode
+def _same_event(a, b):
+    """two real events: same path, declared type, value class; -> (structural bool, value cond)"""
+    if not (isinstance(a, MarshalEvent) and isinstance(b, MarshalEvent)):
+        return False, True
+    st = a.path == b.path and a.type is b.type and (a.value is ...) == (b.value is ...)
+    if not st or a.value is ...:
+        return st, True
+    return type(a.value) is type(b.value), int(a.value) == int(b.value)
+
+
+def _same_details(d1, d2):
+    if set(d1) != set(d2):
+        return False
+    conds = []
+    for k in d1:
+        if k in ("class", "constraint_path", "violator_path"):
+            if d1[k] != d2[k]:
+                return False
+        elif k == "tpm_type":
+            if d1[k] is not d2[k]:
+                return False
+        elif k == "command_code":
+            if (d1[k] is None) != (d2[k] is None):
+                return False
+            if d1[k] is not None:
+                conds.append(int(d1[k]) == int(d2[k]))
+        else:
+            conds.append(int(d1[k]) == int(d2[k]))
+    return all(conds)
+
+
+def warn_vs_strict(cfg, b):
+    from .common import decode_full
+
+    T, cc, enc = _cfg(cfg)
+    s = decode_full(T, b, True, cc, enc)
+    if s.crash is not None:
+        note("strict-crash")  # C06's business
+        assume(False)
+    w = decode_full(T, b, False, cc, enc)
+    k = next((i for i, e in enumerate(w.events) if isinstance(e, WarningEvent)), None)
+    if s.err is None:
+        note("strict-accepts")
+        checks = [("warn-crash-on-accepted-input", w.crash is None and w.err is None),
+                  ("warning-on-accepted-input", k is None),
+                  ("accepted-event-count", len(w.events) == len(s.events))]
+        if len(w.events) != len(s.events) or k is not None:
+            return checks
+        st, va = [], []
+        for a, e in zip(w.events, s.events):
+            x, y = _same_event(a, e)
+            st.append(x)
+            va.append(y)
+        checks.append(("accepted-events-structure", all(st)))
+        checks.append(("accepted-events-values", all(va)))
+        return checks
+    kind = kind_of(s.err)
+    note("strict-rejects:" + kind)
+    if k is None:
+        # no warning before warn mode ended: allowed only if it raised the very same documented error
+        # (unknown command code / selector without member are the documented warn-mode raises)
+        same = w.err is not None and _same_details(s.snaps["err"], w.snaps["err"])
+        ok_count = len(w.events) == len(s.events)
+        return [("warn-mode-no-warning-but-strict-rejects[%s]" % kind, all([w.crash is None, same, ok_count]))]
+    head = w.events[:k]
+    if kind == "Value":
+        checks = [("value-warning-preceded-by-offending-event", k >= 1 and len(head) - 1 == len(s.events))]
+        if not (k >= 1 and len(head) - 1 == len(s.events)):
+            return checks
+        off = head[-1]
+        head = head[:-1]
+        checks.append(("offending-event-is-the-violator", isinstance(off, MarshalEvent)
+                       and str(off.path) == s.snaps["err"]["constraint_path"]
+                       and off.type is s.snaps["err"]["tpm_type"]))
+        checks.append(("offending-event-value", int(off.value) == int(s.snaps["err"]["value"])))
+    else:
+        checks = [("events-before-first-warning-count[%s]" % kind, len(head) == len(s.events))]
+        if len(head) != len(s.events):
+            return checks
+    st, va = [], []
+    for a, e in zip(head, s.events):
+        x, y = _same_event(a, e)
+        st.append(x)
+        va.append(y)
+    checks.append(("events-before-first-warning-structure[%s]" % kind, all(st)))
+    checks.append(("events-before-first-warning-values[%s]" % kind, all(va)))
+    checks.append(("first-warning-same-error[%s]" % kind, _same_details(s.snaps["err"], w.snaps[k])))
+    if kind == "Superfluous":
+        checks.append(("first-warning-same-surplus", bytes_eq(as_list(s.err.bytes_remaining), as_list(w.events[k].error.bytes_remaining))))
+    return checks
+
+
+# ------------------------------------------------------------------ C01: well-formed inputs only
+def strict_ref_wf(cfg, b):
+    """strict_ref on a shape whose constrained leaves are assumed valid under the *live* tables
+    (that is what 'well-formed' means for the generator); RefDec (pinned tables) must then accept."""
+    from oracle.refdec import in_valid
+    from oracle.shapes import live_layout
+
+    LT = live_layout()["types"]
+    conds = []
+    for off, w, tkey, lo, hi in cfg.get("leaves", []):
+        d = LT[tkey]
+        v = int.from_bytes(b[off:off + w], "big", signed=d["signed"])
+        if lo is None:
+            conds.append(in_valid(d["valid"], v))
+        else:
+            conds.append(lo <= v)
+            conds.append(v < hi)
+    assume(all(conds))
+    c = dict(cfg)
+    checks = strict_ref(c, b)
+    return [("wellformed-" + t, x) for t, x in checks]
